@@ -71,14 +71,14 @@ theorem alloc_monotone_counts (code : Code) (keep fuel : Nat) (N : Nat) (M : Int
 /-- Every configuration a run started by `VM.Run` reaches has `framesIndex ≤ MaxFrames`: recursion
 beyond the frame capacity ends in the stack-overflow error of OpCall, never in an access outside
 the frame array. -/
-theorem depth_bounded (code : Code) (keep fuel : Nat) (allocs : Int) (globals : Array Value) (g : GSt) (heap : St) :
-    (run code keep fuel allocs ⟨initCore globals, g, heap⟩ {}).1.cfg.core.depth ≤ maxFrames :=
+theorem depth_bounded (code : Code) (keep fuel : Nat) (allocs : Int) (globals : Array Value) (fobjs : Array FnObj) (g : GSt) (heap : St) :
+    (run code keep fuel allocs ⟨initCore globals fobjs, g, heap⟩ {}).1.cfg.core.depth ≤ maxFrames :=
   run_depth code keep fuel allocs _ {} (by simp [Core.depth, initCore, maxFrames])
 
 /-- One dispatch stays in the frame, pushes exactly one frame (only when there is room and the call
 is not a self tail call), or pops exactly one. -/
 theorem frame_discipline (code : Code) (c : Core) :
-    Post (exec code c) (fun o => ∃ f, code.fn c.cur.fnIdx = some f ∧ StepPost f c o) :=
+    PostX (exec code c) (fun o => ∃ f, code.fn c.cur.fnIdx = some f ∧ StepPost f c o) :=
   exec_frames code c
 
 /-! ## C16: self tail calls -/
@@ -92,7 +92,7 @@ theorem self_tail_call_reuses_frame (code : Code) (c : Core) (f : Fn) (cr : Nat)
     (hself : c.cur.fnRef = some cr)
     (hnext : byteAt f (c.cur.ip + 1 + 2 + 1) = opReturn ∨
              (byteAt f (c.cur.ip + 1 + 2 + 1) = opPop ∧ byteAt f (c.cur.ip + 1 + 2 + 2) = opReturn)) :
-    Post (exec code c) (fun o => ∀ c' a, o = .next c' a →
+    PostX (exec code c) (fun o => ∀ c' a, o = .next c' a →
       c'.callers = c.callers ∧ c'.cur.bp = c.cur.bp ∧ c'.cur.fnRef = c.cur.fnRef) :=
   Tengo.Model.VM.self_tail_call_reuses_frame code c f cr hf hop hcallee hself hnext
 
@@ -100,10 +100,10 @@ theorem self_tail_call_reuses_frame (code : Code) (c : Core) (f : Fn) (cr : Nat)
 not followed by a return is never treated as a tail call, and a tail-position call of another
 function object is not either. -/
 theorem push_only_when_not_tail (code : Code) (c : Core) :
-    Post (exec code c) (fun o => ∀ c' a, o = .next c' a → c'.callers.length = c.callers.length + 1 →
+    PostX (exec code c) (fun o => ∀ c' a, o = .next c' a → c'.callers.length = c.callers.length + 1 →
       ∃ f cr, code.fn c.cur.fnIdx = some f ∧ calleeOf f c = .cfn cr ∧
         isSelfTail f c.cur cr (c.cur.ip + 1 + 2) = false) := by
-  refine Post_mono (exec_frames code c) ?_
+  refine PostX_mono (exec_frames code c) ?_
   rintro o ⟨f, hf, h⟩ c' a rfl hlen
   simp only [StepPost] at h
   cases h with
@@ -117,7 +117,7 @@ def exFn : Fn := { insts := #[20, 1, 0, 21, 1], numLocals := 1, numParams := 1, 
 def exCode : Code := { main := { insts := #[41], numLocals := 0, numParams := 0, varargs := false },
                        consts := #[.fn exFn 0] }
 def exCore : Core :=
-  { regs := { stack := #[.undef, .int 7, .cfn 0, .int 6], sp := 4, globals := #[] },
+  { regs := { stack := #[.undef, .int 7, .cfn 0, .int 6], sp := 4, globals := #[], fobjs := #[(0, [])] },
     cur := { fnIdx := 1, fnRef := some 0, ip := -1, bp := 1, free := [] },
     callers := [{ fnIdx := 0, fnRef := none, ip := 5, bp := 0, free := [] }] }
 
